@@ -216,7 +216,7 @@ def hexa_cube():
     return [[0, 0, 0], [1, 0, 0], [1, 1, 0], [0, 1, 0], [0, 0, 1], [1, 0, 1], [1, 1, 1], [0, 1, 1]]
 
 
-@proof("C14", "bounded/scaling-and-stretch-monotone", cases=["scale", "stretch"], functions=FUNCS, bounded=True, samples=60,
+@proof("C14", "bounded/scaling-and-stretch-monotone", cases=["scale", "scale-quad", "stretch"], functions=FUNCS, bounded=True, samples=60,
        level="B", note="bounded stand-in only: uniform scaling 0.1..100 of cells of size >= 0.1 (VSMALL makes it approximate); "
                        "stretching a cube never lowers the value")
 def bounded_scale(ctx):
@@ -227,6 +227,13 @@ def bounded_scale(ctx):
         q1 = hexcell(P).quality
         q2 = hexcell(P * r).quality
         ctx.prove("scale-invariant-within-1e-3-relative", abs(q1 - q2) <= 1e-3 * max(1.0, abs(q1)), q1=q1, q2=q2, r=r)
+    elif ctx.case == "scale-quad":
+        base = np.array([[0, 0, 0], [1, 0, 0], [1, 1, 0], [0, 1, 0]], dtype=float)
+        P = base + np.array([[rng.uniform(-0.1, 0.1), rng.uniform(-0.1, 0.1), 0.0] for _ in range(4)])
+        r1, r2 = 10 ** rng.uniform(-1, 2), 10 ** rng.uniform(-1, 2)
+        q1 = QuadCell(P * r1, [0, 1, 2, 3]).quality
+        q2 = QuadCell(P * r2, [0, 1, 2, 3]).quality
+        ctx.prove("quad-scale-invariant-within-1e-3", abs(q1 - q2) <= 1e-3 * max(1.0, abs(q1)), q1=q1, q2=q2, r1=r1, r2=r2)
     else:
         a = rng.uniform(0.5, 5)
         k1 = rng.uniform(1, 10)
@@ -239,3 +246,68 @@ def bounded_scale(ctx):
             return np.array(hexa_cube(), dtype=float) * np.array(s)
 
         ctx.prove("stretch-never-lowers", hexcell(box(k2)).quality >= hexcell(box(k1)).quality - 1e-9)
+
+
+# ------------------------------------------------------------------------------ no hidden state
+from classy_blocks.optimize.grid import HexGrid, QuadGrid  # noqa: E402
+from classy_blocks.optimize.links import TranslationLink  # noqa: E402
+
+GRID = "classy_blocks.optimize.grid:GridBase."
+
+
+def _quad_points(ctx):
+    # 3 x 2 lattice of symbolic points: two quads side by side plus one more row -> 4 cells, 9 points
+    return ctx.mat("g", 9)
+
+
+QUADS = [[0, 1, 4, 3], [1, 2, 5, 4], [3, 4, 7, 6], [4, 5, 8, 7]]
+
+
+@proof("C14", "quality-is-a-function-of-current-points/quad-grid", cases=["move-corner", "move-centre", "move-linked-leader", "move-twice"],
+       functions=FUNCS + [GRID + "update", GRID + "quality", CELL + "QuadCell.normal"], samples=6, timeout=200,
+       note="after any sequence of GridBase.update calls (with links) every cell's value equals that of a freshly built cell at "
+            "the same coordinates: no stale cache or remembered state enters the measure")
+def quad_grid_state(ctx):
+    P = _quad_points(ctx)
+    grid = QuadGrid(P.copy(), [list(q) for q in QUADS])
+    _ = grid.quality                       # evaluate everything once (fills whatever is cached)
+    for c in grid.cells:
+        _ = c.quality
+    case = ctx.case
+    if case == "move-linked-leader":
+        # junction 0 leads junction 8 (they share no cell)
+        grid.junctions[0].add_link(TranslationLink(grid.points[0], grid.points[8]), 8)
+        grid.update(5, ctx.vec("m5"))
+        grid.update(0, ctx.vec("m0"))
+    elif case == "move-corner":
+        grid.update(0, ctx.vec("m0"))
+    elif case == "move-centre":
+        grid.update(4, ctx.vec("m4"))
+    else:
+        grid.update(4, ctx.vec("m4"))
+        grid.update(1, ctx.vec("m1"))
+        grid.update(4, ctx.vec("n4"))
+    fresh = QuadGrid(np.array(grid.points).copy(), [list(q) for q in QUADS])
+    for k in range(len(QUADS)):
+        ctx.prove(f"cell{k}/same-as-fresh-cell", ctx.eq(grid.cells[k].quality, fresh.cells[k].quality, tol=1e-6))
+    ctx.prove("grid-quality-same-as-fresh-grid", ctx.eq(grid.quality, fresh.quality, tol=1e-6))
+
+
+HEXES = [[0, 1, 4, 3, 6, 7, 10, 9], [1, 2, 5, 4, 7, 8, 11, 10]]
+
+
+@proof("C14", "quality-is-a-function-of-current-points/hex-grid", cases=["move-shared", "move-linked-leader"],
+       functions=FUNCS + [GRID + "update", GRID + "quality"], samples=6, timeout=200)
+def hex_grid_state(ctx):
+    P = ctx.mat("h", 12)
+    grid = HexGrid(P.copy(), [list(q) for q in HEXES])
+    _ = grid.quality
+    if ctx.case == "move-linked-leader":
+        grid.junctions[0].add_link(TranslationLink(grid.points[0], grid.points[11]), 11)
+        grid.update(4, ctx.vec("m4"))
+        grid.update(0, ctx.vec("m0"))
+    else:
+        grid.update(4, ctx.vec("m4"))
+    fresh = HexGrid(np.array(grid.points).copy(), [list(q) for q in HEXES])
+    for k in range(2):
+        ctx.prove(f"cell{k}/same-as-fresh-cell", ctx.eq(grid.cells[k].quality, fresh.cells[k].quality, tol=1e-6))
